@@ -1480,6 +1480,20 @@ return 1;""",
             allocate_local_blk = self.add_stmt_capsule(arg, intent_blk, fmt_arg)
             if allocate_local_blk:
                 update_code_blocks(locals(), allocate_local_blk, fmt_arg)
+            if intent_blk.get(self.language + "_dealloc_capsule"):
+                # The wrapper allocates this argument (struct as class
+                # intent(out)): give the new object the destructor which
+                # releases it instead of index 0 (never released).
+                capsule_type = arg.gen_arg_as_cxx(
+                    name=None, force_ptr=True, params=None,
+                    with_template_args=True)
+                del_lines = ["free(ptr);"]
+                if self.language == "cxx":
+                    del_lines = [
+                        "{0} cxx_ptr =\t static_cast<{0}>(ptr);".format(
+                            capsule_type), "delete cxx_ptr;"]
+                fmt_arg.capsule_order = self.add_capsule_code(
+                    self.language + " " + capsule_type, del_lines)
             goto_fail = goto_fail or intent_blk.goto_fail
             self.need_numpy = self.need_numpy or intent_blk.need_numpy
             update_code_blocks(locals(), intent_blk, fmt_arg)
@@ -4494,6 +4508,8 @@ py_statements = [
         ],
         object_created=True,
         fail=[
+            "if ({py_var} == {nullptr} && {cxx_var} != {nullptr})\t "
+            "{PY_release_memory_function}({capsule_order}, {cxx_var});",
             "Py_XDECREF({py_var});",
         ],
         goto_fail=True,
